@@ -312,6 +312,41 @@ pub const TEMPLATES: &[Template] = &[
     ..T0
   },
   Template {
+    name: "util-direct",
+    langs: JS,
+    severity: "info",
+    message: "literal or call with literal",
+    rule: "  matches: lit-or-call\n",
+    utils: &[
+      ("lit-or-call", "    any:\n    - matches: lit\n    - matches: call\n"),
+      ("lit", "    any:\n    - kind: number\n    - kind: string\n"),
+      ("call", "    all:\n    - kind: call_expression\n    - matches: has-lit-arg\n"),
+      ("has-lit-arg", "    has:\n      kind: arguments\n      has:\n        matches: lit\n"),
+    ],
+    valid: &["foo(a)"],
+    invalid: &["foo(1)"],
+    ..T0
+  },
+  Template {
+    name: "global-direct",
+    langs: JS,
+    severity: "hint",
+    message: "literal (global utils)",
+    rule: "  matches: g-lit-or-id\n",
+    needs_utils: &["g-literal", "g-lit-or-id"],
+    valid: &["foo()"],
+    invalid: &["foo(1)"],
+    ..T0
+  },
+  Template {
+    name: "g-lit-or-id",
+    langs: JS,
+    rule: "  any:\n  - matches: g-literal\n  - kind: template_string\n",
+    needs_utils: &["g-literal"],
+    is_util: true,
+    ..T0
+  },
+  Template {
     name: "global-literal-call",
     langs: JS,
     severity: "info",
@@ -583,7 +618,7 @@ pub fn instantiate(t: &Template, lang: &str, suffix: &str) -> RuleSpec {
   // references to global utils must carry the language tag too
   let fixrefs = |s: &str| -> String {
     let mut s = s.to_string();
-    for u in ["g-call-with-literal", "g-literal"] {
+    for u in ["g-call-with-literal", "g-literal", "g-lit-or-id"] {
       s = s.replace(&format!("matches: {u}\n"), &format!("matches: {u}-{tag}\n"));
     }
     s
